@@ -174,9 +174,43 @@ def gen_ops(rng, depth, alphabet, maxb, ids):
     return ops
 
 
+def shrink_failure(ctx, strict, repl, ops, nfail_before):
+    """minimise the op sequence of a fresh oracle failure (same key must still fail)"""
+    from .core import Probe, shrink_list
+    new = ctx.fails[nfail_before:]
+    for key in sorted({f["key"] for f in new}):
+        _shrink_key(ctx, strict, repl, ops, new, key)
+
+
+def _shrink_key(ctx, strict, repl, ops, new, key):
+    from .core import Probe, shrink_list
+
+    def fails(cand):
+        pr = Probe()
+        try:
+            run_impl(pr, strict, repl, cand, {})
+        except Exception:  # noqa
+            return False
+        return key in pr.keys
+
+    small = shrink_list(ops, fails)
+    # shrink batches
+    for j, o in enumerate(list(small)):
+        if o[0] in ("init", "add") and len(o[1]) > 1:
+            b = shrink_list(o[1], lambda bb: fails(small[:j] + [(o[0], bb)] + small[j + 1:]), 60)
+            small = small[:j] + [(o[0], b)] + small[j + 1:]
+    case = {"strict": strict, "replace_all": repl, "ops": [op_str(o) for o in small], "shrunk_from_ops": len(ops)}
+    for f in new:
+        if f["key"] == key:
+            f["case"] = case
+
+
 def run_case(ctx, strict, repl, ops, lines, impls, cases, kind):
     case = {"strict": strict, "replace_all": repl, "ops": [op_str(o) for o in ops]}
+    nf = len(ctx.fails)
     outs = run_impl(ctx, strict, repl, ops, case)
+    if len(ctx.fails) > nf and len({f["key"] for f in ctx.fails[:nf]}) < 6:
+        shrink_failure(ctx, strict, repl, ops, nf)
     line = f"os run {int(strict)} {int(repl)} " + ";".join(op_str(o) for o in ops[:len(outs)])
     lines.append(line)
     impls.append("|".join(outs))
@@ -245,6 +279,8 @@ def correspond(ctx):
     if not ctx.quick:
         exhaustive(ctx, lines, impls, cases)
     ctx.diff_model(lines, impls, cases)
+    from . import np_prims
+    np_prims.validate(ctx, ctx.scale(300, 3000))
 
 
 def exhaustive(ctx, lines, impls, cases):
